@@ -375,7 +375,17 @@ func (w *walker) stmts(where string, list []ast.Stmt, src []byte) {
 func main() {
 	repo := flag.String("repo", "/repo", "")
 	out := flag.String("out", "", "")
+	ties := flag.Bool("ties", false, "print the body of TiesShape.lean for the current source")
 	flag.Parse()
+	if *ties {
+		t, err := tiesShape(*repo)
+		if err != nil {
+			fmt.Fprintln(os.Stderr, "c08 extract:", err)
+			os.Exit(1)
+		}
+		fmt.Print(t)
+		return
+	}
 	var b strings.Builder
 	b.WriteString("/- GENERATED by harness/cmd/c08/extract from /repo/proj/{common,datum,merc,lcc,aea,eqdc,tmerc,utm,krovak}.go.\n   Do not edit: rewritten from the current source on every check run (tie T1). -/\nimport GeomV.C08.ProjCommon\nset_option linter.unusedVariables false\nnamespace GeomV.C08.Gen\nopen GeomV.C08\n\n")
 	total := 0
@@ -440,6 +450,11 @@ func main() {
 		fmt.Fprintln(os.Stderr, "c08 extract:", err)
 		os.Exit(1)
 	}
+	shape, nshape, err := shapeFile(*repo)
+	if err != nil {
+		fmt.Fprintln(os.Stderr, "c08 extract:", err)
+		os.Exit(1)
+	}
 	if *out == "" {
 		fmt.Print(b.String())
 		fmt.Print(route)
@@ -447,7 +462,7 @@ func main() {
 	}
 	os.MkdirAll(*out, 0o755)
 	p := filepath.Join(*out, "GoProj.lean")
-	for _, f := range []struct{ path, text string }{{p, b.String()}, {filepath.Join(*out, "GoRoute.lean"), route}, {filepath.Join(*out, "GoAxis.lean"), axis}} {
+	for _, f := range []struct{ path, text string }{{p, b.String()}, {filepath.Join(*out, "GoRoute.lean"), route}, {filepath.Join(*out, "GoAxis.lean"), axis}, {filepath.Join(*out, "GoShape.lean"), shape}} {
 		old, _ := os.ReadFile(f.path)
 		if string(old) != f.text {
 			if err := os.WriteFile(f.path, []byte(f.text), 0o644); err != nil {
@@ -456,5 +471,5 @@ func main() {
 			}
 		}
 	}
-	fmt.Printf("c08 extract: %d definitions -> %s, %d (transform.go) -> GoRoute.lean, %d (adjust_axis.go) -> GoAxis.lean\n", total, p, nroute, naxis)
+	fmt.Printf("c08 extract: %d definitions -> %s, %d (transform.go) -> GoRoute.lean, %d (adjust_axis.go) -> GoAxis.lean, %d function skeletons -> GoShape.lean\n", total, p, nroute, naxis, nshape)
 }
